@@ -48,6 +48,24 @@ def ob_step(a: int, b: int, c: int, hold: int) -> bool:
     oev, sub = SC.oracle_event(ev)
     cover('stepped')
     ctx = {'sub': sub, 'hold': hold}
+    if ev == 'open_ok' and state == S.OPENSENT and w.state == S.OPENCONFIRM:
+        # RFC 4271 8.2.2 OpenSent/BGPOpen: "sets the HoldTimer according to the negotiated value", sets a KeepaliveTimer;
+        # the negotiated value is the smaller of the configured and the proposed one, zero switches both off.  The
+        # keepalive interval is the implementation's choice but must be able to keep the session alive (< hold time).
+        conf = w.cfg['hold_time']
+        neg = a if a < conf else conf
+        now = w.reactor.now
+        if neg == 0:
+            if w.timer_active('hold') or w.timer_active('keepalive'):
+                return False
+        else:
+            if not (w.timer_active('hold') and w.timer_active('keepalive')):
+                return False
+            if w.timer_deadline('hold') - now != neg:
+                return False
+            ka = w.timer_deadline('keepalive') - now
+            if not (0 < ka and ka < neg):
+                return False
     las = w.cfg['local_as']
     ctx['open'] = (4, las if las < 65536 else 23456, w.cfg['hold_time'])
     if ev == 'badlen' and cfgd.get('badlen', (4, 20))[0] == 4:
